@@ -147,19 +147,23 @@ Definition ornt_transform (s e : ornt) : r5 ornt :=
 Definition labels := list (Z * Z).
 Definition ras_labels : labels := [(76, 82); (80, 65); (73, 83)].
 
-Definition ornt2axcodes (lb : labels) (o : list (option (Z * Z))) : r5 (list (option Z)) :=
-  fold_right (fun row acc =>
-      t <~ acc ;;
-      match row with
-      | None => Ok5 (None :: t)
-      | Some (ax, d) =>
-          if (ax <? - zlen lb) || (zlen lb <=? ax) then Err5 E5Index
-          else
-            let pr := znth lb (if ax <? 0 then ax + zlen lb else ax) (0, 0) in
-            if d =? 1 then Ok5 (Some (snd pr) :: t)
-            else if d =? -1 then Ok5 (Some (fst pr) :: t)
-            else Err5 E5Value
-      end) (Ok5 []) o.
+Definition axcode_of (lb : labels) (row : option (Z * Z)) : r5 (option Z) :=
+  match row with
+  | None => Ok5 None
+  | Some (ax, d) =>
+      if (ax <? - zlen lb) || (zlen lb <=? ax) then Err5 E5Index
+      else
+        let pr := znth lb (if ax <? 0 then ax + zlen lb else ax) (0, 0) in
+        if d =? 1 then Ok5 (Some (snd pr))
+        else if d =? -1 then Ok5 (Some (fst pr))
+        else Err5 E5Value
+  end.
+(* rows are visited in order: the first offending row decides the exception *)
+Fixpoint ornt2axcodes (lb : labels) (o : list (option (Z * Z))) : r5 (list (option Z)) :=
+  match o with
+  | [] => Ok5 []
+  | row :: r => c <~ axcode_of lb row ;; t <~ ornt2axcodes lb r ;; Ok5 (c :: t)
+  end.
 
 Fixpoint nodupb (l : list Z) : bool :=
   match l with [] => true | x :: r => negb (existsb (Z.eqb x) r) && nodupb r end.
@@ -322,6 +326,65 @@ Definition slicer_getitem {V} (im : img V) (ix : list idx) : r5 (img V) :=
     aff <~ slice_affine (i_aff im) shape (map cidx_to_idx c) ;;
     Ok5 (mkImg d aff (i_dim im)).
 
+(* ------------------------------------------------------------------ funcs.py *)
+(* _aff_is_diag: np.allclose(rzs, diag(diag(rzs))) — off-diagonal |x| <= 1e-8; for the
+   integer-valued affines of this model that is x = 0 *)
+Definition aff_is_diag (A : mat) : bool :=
+  forallb (fun i => forallb (fun k => (i =? k) || (znth (znth A i []) k 0 =? 0)) [0; 1; 2]) [0; 1; 2].
+(* as_closest_canonical(img, enforce_diag=True) *)
+Definition as_closest_canonical_diag {V} (rot : mat -> mat) (atol : Z) (im : img V) : r5 (bool * img V) :=
+  r <~ as_closest_canonical rot atol im ;;
+  if aff_is_diag (i_aff (snd r)) then Ok5 r else Err5 E5Orient.
+
+(* four_to_three: one 3-D image per index of the last axis, same affine and header *)
+Definition four_to_three {V} (im : img V) : r5 (list (img V)) :=
+  let t := i_data im in
+  if negb (Nat.eqb (length (a_shape t)) 4) then Err5 E5Value
+  else Ok5 (map (fun i => mkImg (mkArr (firstn 3 (a_shape t)) (fun j => a_get t (j ++ [i]))) (i_aff im) (i_dim im))
+                (zseq (znth (a_shape t) 3 0))).
+
+(* squeeze_image: final axes of length 1 beyond the third are dropped (a reshape) *)
+Fixpoint count_trailing_ones (l : list Z) : nat :=      (* l = reversed shape[3:] *)
+  match l with 1 :: r => S (count_trailing_ones r) | _ => O end.
+Definition squeeze_image {V} (im : img V) : img V :=
+  let t := i_data im in
+  let k := count_trailing_ones (rev (skipn 3 (a_shape t))) in
+  mkImg (mkArr (firstn (length (a_shape t) - k) (a_shape t)) (fun j => a_get t (j ++ repeat 0 k))) (i_aff im) (i_dim im).
+
+(* concat_images(images, check_affines=True, axis=None): new last axis *)
+Definition mat_eqb (A B : mat) : bool :=
+  Nat.eqb (length A) (length B)
+  && forallb (fun p : list Z * list Z => Nat.eqb (length (fst p)) (length (snd p))
+                && forallb (fun q : Z * Z => fst q =? snd q) (combine (fst p) (snd p))) (combine A B).
+Definition shape_eqb (a b : list Z) : bool :=
+  Nat.eqb (length a) (length b) && forallb (fun q : Z * Z => fst q =? snd q) (combine a b).
+Definition concat_images {V} (ims : list (img V)) : r5 (img V) :=
+  match ims with
+  | [] => Err5 E5Value
+  | im0 :: _ =>
+      let sh0 := a_shape (i_data im0) in
+      if negb (forallb (fun im => shape_eqb (a_shape (i_data im)) sh0 && mat_eqb (i_aff im) (i_aff im0)) ims)
+      then Err5 E5Value
+      else Ok5 (mkImg (mkArr (sh0 ++ [zlen ims])
+                             (fun j => a_get (i_data (nth (Z.to_nat (last j 0)) ims im0)) (removelast j)))
+                      (i_aff im0) (i_dim im0))
+  end.
+
+(* ------------------------------------------------------------------ compositions *)
+(* any sequence of img.slicer[...] and img.as_reoriented(...) calls, each on the result of the
+   previous one (nifti: the NIfTI flavour of as_reoriented, which also remaps dim_info) *)
+Inductive op := OSlice (ix : list idx) | OReorient (o : ornt).
+Definition step_op {V} (nifti : bool) (im : img V) (p : op) : r5 (img V) :=
+  match p with
+  | OSlice ix => slicer_getitem im ix
+  | OReorient o => r <~ (if nifti then nifti_as_reoriented im o else as_reoriented im o) ;; Ok5 (snd r)
+  end.
+Fixpoint run_ops {V} (nifti : bool) (im : img V) (ops : list op) : r5 (img V) :=
+  match ops with
+  | [] => Ok5 im
+  | p :: r => im' <~ step_op nifti im p ;; run_ops nifti im' r
+  end.
+
 (* ------------------------------------------------------------------ specifications *)
 (* what the property asks of a reorientation: source index of output index j *)
 Definition src_spec (o : ornt) (shape j : list Z) : list Z :=
@@ -373,9 +436,29 @@ Definition run_reorient (nifti : bool) (shape : list Z) (o : ornt) (A : mat) (di
   let im := snd r in
   Ok5 (fst r, a_shape (i_data im), i_aff im, i_dim im, srcs_of shape (i_data im)).
 
-Definition run_slicer (shape : list Z) (ix : list idx) (A : mat)
-  : r5 (list Z * mat * list Z) :=
-  im <~ slicer_getitem (mkImg (id_arr shape) A []) ix ;;
-  Ok5 (a_shape (i_data im), i_aff im, srcs_of shape (i_data im)).
+Definition run_slicer (shape : list Z) (ix : list idx) (A : mat) (dim : list (option Z))
+  : r5 (list Z * mat * list (option Z) * list Z) :=
+  im <~ slicer_getitem (mkImg (id_arr shape) A dim) ix ;;
+  Ok5 (a_shape (i_data im), i_aff im, i_dim im, srcs_of shape (i_data im)).
 
 Definition run_canonical_hyp (c : list cidx) (shape : list Z) : bool := ix_validb shape c.
+
+Definition run_sequence (nifti : bool) (shape : list Z) (A : mat) (dim : list (option Z)) (ops : list op)
+  : r5 (list Z * mat * list (option Z) * list Z) :=
+  im <~ run_ops nifti (mkImg (id_arr shape) A dim) ops ;;
+  Ok5 (a_shape (i_data im), i_aff im, i_dim im, srcs_of shape (i_data im)).
+
+(* apply_orientation / flip_axis on the identity-valued array: out shape + C-order sources *)
+Definition run_apply (shape : list Z) (o : ornt) : r5 (list Z * list Z) :=
+  t <~ apply_orientation (id_arr shape) o ;; Ok5 (a_shape t, srcs_of shape t).
+Definition run_flip_axis (shape : list Z) (ax : Z) : list Z := srcs_of shape (np_flip ax (id_arr shape)).
+Definition img_out (shape : list Z) (im : img (list Z)) := (a_shape (i_data im), i_aff im, srcs_of shape (i_data im)).
+Definition run_four_to_three (shape : list Z) (A : mat) : r5 (list (list Z * mat * list Z)) :=
+  l <~ four_to_three (mkImg (id_arr shape) A []) ;; Ok5 (map (img_out shape) l).
+Definition run_squeeze (shape : list Z) (A : mat) := img_out shape (squeeze_image (mkImg (id_arr shape) A [])).
+Definition run_concat43 (shape : list Z) (A : mat) : r5 (list Z * mat * list Z) :=
+  l <~ four_to_three (mkImg (id_arr shape) A []) ;; c <~ concat_images l ;; Ok5 (img_out shape c).
+(* enforce_diag on an integer affine whose orientation o is given (the loop's answer) *)
+Definition run_enforce_diag (shape : list Z) (o : ornt) (A : mat) : r5 (list Z * mat) :=
+  r <~ nifti_as_reoriented (mkImg (id_arr shape) A []) o ;;
+  if aff_is_diag (i_aff (snd r)) then Ok5 (a_shape (i_data (snd r)), i_aff (snd r)) else Err5 E5Orient.
